@@ -5,9 +5,9 @@
 EXTENDS Layer, Json
 
 CoreRec  == [lock |-> lock, lc |-> lc, bc |-> bc, layers |-> layers, blobs |-> blobs, fsd |-> fsd, hd |-> hd,
-             hs |-> hs, nres |-> nres, nfault |-> nfault]
+             hs |-> hs, nres |-> nres, nfault |-> nfault, nbreak |-> nbreak]
 CoreRecP == [lock |-> lock', lc |-> lc', bc |-> bc', layers |-> layers', blobs |-> blobs', fsd |-> fsd', hd |-> hd',
-             hs |-> hs', nres |-> nres', nfault |-> nfault']
+             hs |-> hs', nres |-> nres', nfault |-> nfault', nbreak |-> nbreak']
 
 GenInit == Init /\ PrintT("VINIT " \o ToJson(CoreRec))
 GenNext == Next /\ PrintT("VEDGE " \o ToJson([from |-> CoreRec, last |-> last', to |-> CoreRecP]))
